@@ -9,11 +9,13 @@ import (
 	"go/parser"
 	"go/printer"
 	"go/token"
+	"math"
 	"os"
 	"path/filepath"
 	"sort"
 	"strings"
 	"sync"
+	"sync/atomic"
 	"testing"
 	"time"
 
@@ -23,11 +25,13 @@ import (
 	"github.com/nspcc-dev/neo-go/pkg/core/block"
 	"github.com/nspcc-dev/neo-go/pkg/core/native/nativenames"
 	"github.com/nspcc-dev/neo-go/pkg/core/native/noderoles"
+	"github.com/nspcc-dev/neo-go/pkg/core/state"
 	"github.com/nspcc-dev/neo-go/pkg/core/storage"
 	"github.com/nspcc-dev/neo-go/pkg/core/transaction"
 	"github.com/nspcc-dev/neo-go/pkg/crypto/hash"
 	"github.com/nspcc-dev/neo-go/pkg/crypto/keys"
 	"github.com/nspcc-dev/neo-go/pkg/encoding/fixedn"
+	"github.com/nspcc-dev/neo-go/pkg/neorpc"
 	"github.com/nspcc-dev/neo-go/pkg/neorpc/result"
 	"github.com/nspcc-dev/neo-go/pkg/neotest"
 	"github.com/nspcc-dev/neo-go/pkg/network"
@@ -35,6 +39,7 @@ import (
 	"github.com/nspcc-dev/neo-go/pkg/rpcclient"
 	"github.com/nspcc-dev/neo-go/pkg/services/rpcsrv"
 	"github.com/nspcc-dev/neo-go/pkg/smartcontract"
+	"github.com/nspcc-dev/neo-go/pkg/smartcontract/trigger"
 	"github.com/nspcc-dev/neo-go/pkg/util"
 	"github.com/nspcc-dev/neo-go/pkg/vm/opcode"
 	"github.com/nspcc-dev/neo-go/pkg/wallet"
@@ -71,6 +76,143 @@ type c13Net struct {
 	blockMs    int           // block interval of this chain (config and harness' block producer)
 	notaryReqs int           // notary requests members submitted
 	clients    []*rpcclient.Internal
+
+	// progress-driven block production (see pace): RPC calls in flight, time of the last one,
+	// recent scheduling latency of this process, transactions somebody is still waiting for
+	inflight atomic.Int64
+	lastAct  atomic.Int64
+	latency  atomic.Int64
+	slow     int // timing relaxation factor (1: normal; 4: the confirming re-run of a scenario)
+	waitMu   sync.Mutex
+	waits    map[string]util.Uint256 // "<client>/<subscription id>" -> transaction awaited
+	stop     chan struct{}
+}
+
+// canary measures how late this process' goroutines are woken up (machine load).
+func (x *c13Net) canary() {
+	var recent [16]int64
+	for i := 0; ; i++ {
+		select {
+		case <-x.stop:
+			return
+		default:
+		}
+		t0 := time.Now()
+		time.Sleep(time.Millisecond)
+		recent[i%len(recent)] = int64(time.Since(t0) - time.Millisecond)
+		var mx int64
+		for _, v := range recent {
+			mx = max(mx, v)
+		}
+		x.latency.Store(mx)
+	}
+}
+
+// pace waits until the next block is due: at least one block interval, and
+// then until every member has gone quiet (no RPC call in flight and none for a
+// whole polling period plus the current wake-up latency) — the members then
+// all wait for a block. Under machine load the chain slows down with the
+// members instead of running away from them; budgets are counted in blocks.
+func (x *c13Net) pace() {
+	base := time.Duration(x.blockMs) * time.Millisecond
+	time.Sleep(base)
+	deadline := time.Now().Add(150*base + time.Second)
+	for time.Now().Before(deadline) {
+		quiet := base + 3*time.Duration(x.latency.Load())
+		if x.inflight.Load() == 0 && time.Since(time.Unix(0, x.lastAct.Load())) >= quiet {
+			return
+		}
+		time.Sleep(base / 4)
+	}
+}
+
+// track marks an RPC call of a member.
+func (c *c13Chain) track() func() {
+	c.net.inflight.Add(1)
+	c.net.lastAct.Store(time.Now().UnixNano())
+	return func() {
+		c.net.lastAct.Store(time.Now().UnixNano())
+		c.net.inflight.Add(-1)
+	}
+}
+
+func (c *c13Chain) InvokeContractVerify(contract util.Uint160, params []smartcontract.Parameter, signers []transaction.Signer, witnesses ...transaction.Witness) (*result.Invoke, error) {
+	defer c.track()()
+	return c.Internal.InvokeContractVerify(contract, params, signers, witnesses...)
+}
+func (c *c13Chain) InvokeFunction(contract util.Uint160, operation string, params []smartcontract.Parameter, signers []transaction.Signer) (*result.Invoke, error) {
+	defer c.track()()
+	return c.Internal.InvokeFunction(contract, operation, params, signers)
+}
+func (c *c13Chain) InvokeScript(script []byte, signers []transaction.Signer) (*result.Invoke, error) {
+	defer c.track()()
+	return c.Internal.InvokeScript(script, signers)
+}
+func (c *c13Chain) CalculateNetworkFee(tx *transaction.Transaction) (int64, error) {
+	defer c.track()()
+	return c.Internal.CalculateNetworkFee(tx)
+}
+func (c *c13Chain) GetBlockCount() (uint32, error) {
+	defer c.track()()
+	return c.Internal.GetBlockCount()
+}
+func (c *c13Chain) GetVersion() (*result.Version, error) {
+	defer c.track()()
+	return c.Internal.GetVersion()
+}
+func (c *c13Chain) GetCommittee() (keys.PublicKeys, error) {
+	defer c.track()()
+	return c.Internal.GetCommittee()
+}
+func (c *c13Chain) GetContractStateByID(id int32) (*state.Contract, error) {
+	defer c.track()()
+	return c.Internal.GetContractStateByID(id)
+}
+func (c *c13Chain) GetContractStateByHash(h util.Uint160) (*state.Contract, error) {
+	defer c.track()()
+	return c.Internal.GetContractStateByHash(h)
+}
+func (c *c13Chain) GetApplicationLog(h util.Uint256, trig *trigger.Type) (*result.ApplicationLog, error) {
+	defer c.track()()
+	return c.Internal.GetApplicationLog(h, trig)
+}
+
+// ReceiveExecutions / Unsubscribe: the transaction waiters (transactionGroupMonitor) are tracked,
+// so that the step-by-step driver knows when nobody waits for an executed transaction any more.
+func (c *c13Chain) ReceiveExecutions(flt *neorpc.ExecutionFilter, rcvr chan<- *state.AppExecResult) (string, error) {
+	defer c.track()()
+	id, err := c.Internal.ReceiveExecutions(flt, rcvr)
+	if err == nil && flt != nil && flt.Container != nil {
+		c.net.waitMu.Lock()
+		c.net.waits[fmt.Sprintf("%p/%s", c.Internal, id)] = *flt.Container
+		c.net.waitMu.Unlock()
+	}
+	return id, err
+}
+func (c *c13Chain) ReceiveHeadersOfAddedBlocks(flt *neorpc.BlockFilter, rcvr chan<- *block.Header) (string, error) {
+	defer c.track()()
+	return c.Internal.ReceiveHeadersOfAddedBlocks(flt, rcvr)
+}
+func (c *c13Chain) Unsubscribe(id string) error {
+	defer c.track()()
+	err := c.Internal.Unsubscribe(id)
+	c.net.waitMu.Lock()
+	delete(c.net.waits, fmt.Sprintf("%p/%s", c.Internal, id))
+	c.net.waitMu.Unlock()
+	return err
+}
+
+// awaitedExecuted reports whether some member still waits for the outcome of a
+// transaction that is already in a block.
+func (x *c13Net) awaitedExecuted() bool {
+	x.waitMu.Lock()
+	defer x.waitMu.Unlock()
+	for _, w := range x.waits {
+		if _, h, err := x.bc.GetTransaction(w); err == nil && h != math.MaxUint32 { // MaxUint32: still pooled
+			return true
+		}
+	}
+	return false
 }
 
 type c13Sent struct {
@@ -95,7 +237,16 @@ func newC13Net(t testing.TB, n int, salt int64) *c13Net { return newC13NetMs(t, 
 
 // newC13NetMs: the same chain with another block interval.
 func newC13NetMs(t testing.TB, n int, salt int64, blockMs int) *c13Net {
-	x := &c13Net{t: t, n: n, blockMs: blockMs}
+	x := &c13Net{t: t, n: n, blockMs: blockMs, slow: 1, waits: map[string]util.Uint256{}, stop: make(chan struct{})}
+	x.lastAct.Store(time.Now().UnixNano())
+	go x.canary()
+	t.Cleanup(func() {
+		select {
+		case <-x.stop:
+		default:
+			close(x.stop)
+		}
+	})
 	for i := 0; i < n; i++ {
 		x.accs = append(x.accs, wallet.NewAccountFromPrivateKey(c13Key(salt, i)))
 	}
@@ -167,6 +318,11 @@ func (x *c13Net) close() {
 	x.clients = nil
 	x.mu.Unlock()
 	_ = cl
+	select {
+	case <-x.stop:
+	default:
+		close(x.stop)
+	}
 	// the servers are shut down by the test's cleanup: members cancelled a moment ago may still be inside an RPC call
 }
 
@@ -210,6 +366,7 @@ func (c *c13Chain) SubscribeToNotaryRequests() (<-chan *result.NotaryRequestEven
 }
 
 func (c *c13Chain) SendRawTransaction(tx *transaction.Transaction) (util.Uint256, error) {
+	defer c.track()()
 	h, err := c.Internal.SendRawTransaction(tx)
 	c.net.mu.Lock()
 	c.net.sent = append(c.net.sent, c13Sent{Member: c.member, Height: c.net.bc.BlockHeight(), Tx: tx, Err: err})
@@ -218,6 +375,7 @@ func (c *c13Chain) SendRawTransaction(tx *transaction.Transaction) (util.Uint256
 }
 
 func (c *c13Chain) SubmitP2PNotaryRequest(req *payload.P2PNotaryRequest) (util.Uint256, error) {
+	defer c.track()()
 	c.net.mu.Lock()
 	c.net.notaryReqs++
 	c.net.mu.Unlock()
@@ -264,7 +422,8 @@ func (x *c13Net) deployNNS() {
 		case err := <-done:
 			require.NoError(x.t, err)
 			return
-		case <-time.After(time.Duration(x.blockMs) * time.Millisecond):
+		default:
+			x.pace()
 			x.addBlock()
 		}
 	}
@@ -398,8 +557,9 @@ func (x *c13Net) summarize(run *c13Run) {
 	}
 }
 
-func c13RunConcurrent(t testing.TB, n int, live []int, budget int, salt int64) *c13Run {
-	x := newC13Net(t, n, salt)
+func c13RunConcurrent(t testing.TB, n int, live []int, budget int, salt int64, slow int) *c13Run {
+	x := newC13NetMs(t, n, salt, c13BlockMs*slow)
+	x.slow = slow
 	x.fund(200_0000_0000)
 	x.deployNNS()
 	x.sent = nil
@@ -429,7 +589,8 @@ loop:
 		select {
 		case <-allBack:
 			break loop
-		case <-time.After(time.Duration(x.blockMs) * time.Millisecond):
+		default:
+			x.pace()
 			x.addBlock()
 		}
 	}
@@ -583,7 +744,7 @@ func c13Judge(c *c13, name string, n int, live []int, fair bool, designated bool
 	report := func(what string) {
 		if !reported[what] {
 			reported[what] = true
-			c.st.AddViolation(what+" — "+name, replay)
+			c.violation(what+" — "+name, replay)
 		}
 	}
 	for _, is := range issues {
@@ -747,25 +908,27 @@ func c13Bootstrap(c *c13) (string, string) {
 			}
 			return rp
 		}
-		c13Guard(c, sc.name, replay, func() {
-			q = newC13Seq(c.t, sc.n, int64(sc.n)*7+int64(i))
-			defer q.x.close()
-			q.run(sc.steps, r)
-			if sc.fair && !q.designated() {
-				q.finalIssues(sc.live)
-			}
-			out := c13Judge(c, sc.name, sc.n, sc.live, sc.fair, q.designated(), q.attempts, q.issues, replay())
-			c.st.OutcomeHistogram["bootstrap:"+out]++
-			if q.nextID > 0 {
-				c.nontr++
-			}
-			if os.Getenv("VERIF_C13_LOG") != "" {
-				fmt.Printf("SEQ %-70s %s attempts=%+v issues=%v\n", sc.name, out, q.attempts, q.issues)
-			}
-			if i == 1 { // n=2, both live, as labels of the model
-				c.st.Samples = append(c.st.Samples, map[string]any{"run": sc.name, "outcome": out, "designation_attempts": q.attempts, "labels": q.steps})
-			}
-			pcases = append(pcases, "(* "+sc.name+": "+out+" *) "+q.coq())
+		c13Confirm(c, sc.name, func(slow int) {
+			c13Guard(c, sc.name, replay, func() {
+				q = newC13Seq(c.t, sc.n, int64(sc.n)*7+int64(i), slow)
+				defer q.x.close()
+				q.run(sc.steps, r)
+				if sc.fair && !q.designated() {
+					q.finalIssues(sc.live)
+				}
+				out := c13Judge(c, sc.name, sc.n, sc.live, sc.fair, q.designated(), q.attempts, q.issues, replay())
+				c.st.OutcomeHistogram["bootstrap:"+out]++
+				if q.nextID > 0 {
+					c.nontr++
+				}
+				if os.Getenv("VERIF_C13_LOG") != "" {
+					fmt.Printf("SEQ %-70s %s attempts=%+v issues=%v\n", sc.name, out, q.attempts, q.issues)
+				}
+				if i == 1 { // n=2, both live, as labels of the model
+					c.st.Samples = append(c.st.Samples, map[string]any{"run": sc.name, "outcome": out, "designation_attempts": q.attempts, "labels": q.steps})
+				}
+				pcases = append(pcases, "(* "+sc.name+": "+out+" *) "+q.coq())
+			})
 		})
 		if q != nil {
 			c.st.OpHistogram["bootstrap-tick"] += q.ticks
@@ -787,26 +950,28 @@ func c13Bootstrap(c *c13) (string, string) {
 		}
 	}
 	for i, sc := range conc {
-		c13Guard(c, fmt.Sprintf("enableNotary n=%d live=%v", sc.n, sc.live), func() any { return map[string]any{"n": sc.n, "live": sc.live} }, func() {
-			run := c13RunConcurrent(c.t, sc.n, sc.live, 40, int64(900+i))
-			var atts []c13Attempt
-			for _, d := range run.Designate {
-				a := c13Attempt{By: d.Order, AllOwn: true, Verdict: "accepted"}
-				if !d.Accepted {
-					a.Verdict = d.Err
-				}
-				for _, b := range d.Order {
-					if b < 0 {
-						a.AllOwn = false
+		c13Confirm(c, fmt.Sprintf("enableNotary n=%d live=%v", sc.n, sc.live), func(slow int) {
+			c13Guard(c, fmt.Sprintf("enableNotary n=%d live=%v", sc.n, sc.live), func() any { return map[string]any{"n": sc.n, "live": sc.live} }, func() {
+				run := c13RunConcurrent(c.t, sc.n, sc.live, 40*min(slow, 2), int64(900+i), slow)
+				var atts []c13Attempt
+				for _, d := range run.Designate {
+					a := c13Attempt{By: d.Order, AllOwn: true, Verdict: "accepted"}
+					if !d.Accepted {
+						a.Verdict = d.Err
 					}
+					for _, b := range d.Order {
+						if b < 0 {
+							a.AllOwn = false
+						}
+					}
+					atts = append(atts, a)
 				}
-				atts = append(atts, a)
-			}
-			out := c13Judge(c, run.Mode, sc.n, sc.live, true, run.Done, atts, nil, run)
-			c.st.OutcomeHistogram["enableNotary:"+out]++
-			c.nontr++
-			c.st.Extra[fmt.Sprintf("enableNotary n=%d live=%v", sc.n, sc.live)] = map[string]any{
-				"blocks": run.Blocks, "budget": run.Budget, "designated": run.Done, "returned": run.Returned, "sent": run.Sent}
+				out := c13Judge(c, run.Mode, sc.n, sc.live, true, run.Done, atts, nil, run)
+				c.st.OutcomeHistogram["enableNotary:"+out]++
+				c.nontr++
+				c.st.Extra[fmt.Sprintf("enableNotary n=%d live=%v", sc.n, sc.live)] = map[string]any{
+					"blocks": run.Blocks, "budget": run.Budget, "designated": run.Done, "returned": run.Returned, "sent": run.Sent}
+			})
 		})
 		c.st.Histories++
 	}
